@@ -1,8 +1,569 @@
-//! C17 (stub; being written)
+//! C17 Human-readable encoding round-trips.
+//!
+//! Findings verified by hand on minimal examples (J = Core; "render" = `string_serialize`):
+//!
+//! F7  render-hole-name-with-space.  Program bytes c1 0b 24 10 = `comp (disconnect iden) unit`
+//!     decoded with `CommitNode::decode`, `Forest::from_program(..).string_serialize()` prints
+//!     `disc3 := disconnect id1 ?hole 1`; parsing that text: "11:31: could not parse `1`".
+//!     (Only `from_program` invents such names; a hole name read from a text is kept, so the
+//!     predicate applies to mode 1 only.)
+//! F8  render-fail-entropy-without-0x.  `main := fail 0x00112233445566778899aabbccddeeff00112233445566778899aabbccddeeff`
+//!     parses; rendered `main := fail 00112233..0000 : 1 -> 1`; reparse: "could not parse:
+//!     unexpected character `0`".
+//! F9  render-option-type-as-question-mark.  `main := comp (injr (injl unit)) unit` parses;
+//!     rendered `jr3 := injr jl2 : 1 -> 2?`; reparse: "could not parse `?`".
+//! F10 literal-cmr-assertion-dropped-by-parser.
+//!     `main := comp (pair (injl unit) unit) (assertl unit #abcd1234..(64 hex digits))`: `Forest::parse`
+//!     returns Ok with an EMPTY root map (the literal's value is not even kept in the AST,
+//!     `AstCmr::Literal`; the assertion node and everything above it silently vanish).  The
+//!     rendering of any assertion uses the literal form, so no program with an assertion survives.
+//! F11 equal-subexpressions-under-two-names.  `main := comp (pair unit unit) unit` parses (the
+//!     two `unit : 1 -> 1` are distinct node objects named ut1 and ut2); rendered text contains
+//!     `pr3 := pair ut1 ut2` but only a line for ut1; reparse: "name `ut2` is referred to but
+//!     does not exist".  NOT reproducible through `Forest::from_program` (it converts with
+//!     maximal sharing, so both occurrences get one name): in mode 1 programs with duplicates
+//!     must round-trip; the predicate applies to parsed texts only (modes 2 and 3).
+//! New, found while writing this check:
+//! F-wide render-word-type-wider-than-2^512.  `iv := jet_sha_256_iv  main := comp (pair (pair iv iv) (pair iv iv)) unit`
+//!     parses; rendered `pr.. := pair .. : 1 -> 2^1024`; reparse: "types may be 2^n for n a
+//!     power of 2, but not 2^1024".
+//! F-name auto-name-collides-with-user-name.  `jl1 := unit  main := comp (injl jl1) unit`
+//!     parses; the unnamed `injl` node is given the invented name `jl1` as well; rendered text
+//!     defines `jl1` twice; reparse: "name `jl1` occured mulitple times".
+//! F-ctx  error-display-with-context-panics.  What simpcli does on a parse error
+//!     (`errs.add_context(text); println!("{}", errs)`) panics in `ErrorSet::fmt` (error.rs:190,
+//!     string slicing) (a) for every error reported at end of input, whose position is 0:0, e.g.
+//!     the text `main :=`, and (b) when the first line starts with a multi-byte character and
+//!     carries an error, e.g. `é := unit`.  (It also drops the first character of line 1.)
+
+use super::c01::{diff_walks, gen_unit_program, walk_commit, Generated};
+use super::c02::bounded_display;
 use crate::engine::*;
+use crate::gen::build::*;
+use crate::gen::prog::*;
+use crate::gen::text::{self, TextInfo};
+use crate::gen::types::from_final;
+use crate::model::layout::{RTy, RTyKind};
+use serde_json::json;
+use simplicity::dag::{DagLike, InternalSharing};
+use simplicity::human_encoding::{ErrorSet, Forest, Position};
+use simplicity::jet::{Core, Elements};
+use simplicity::node::Inner;
+use simplicity::CommitNode;
+use std::collections::{HashMap, HashSet};
+use std::panic::{catch_unwind, resume_unwind, AssertUnwindSafe};
+use std::sync::Arc;
 
-pub const SPEC: Spec = Spec { rule: "stub", ..Spec::base("C17", "stub", case) };
+pub const SPEC: Spec = Spec {
+    rule: "mode 1 (programs): a committed 1->1 program (Core or Elements jets, 4..150 nodes, witnesses, assertions with hidden CMRs, disconnect without branch, fail, words, jets, shared and duplicated sub-expressions; half of the cases with some of these kinds switched off) -> Forest::from_program -> string_serialize -> Forest::parse; oracle: parse succeeds with the single root main and main.to_commit_node() equals the original in the MaxSharing post-order walk (combinator, payload, child indices, cmr, source/target type, ihr/amr where defined) and in to_vec_without_witness bytes. mode 2 (texts): the same kind of program printed by an independent printer in another style (inline nested sub-expressions with optional parentheses, user-style names, some shared nodes written out twice, aliases, shuffled lines, partial/separate type ascriptions, comments, odd white space, #{expr} and #literal hidden branches, hex/binary literals); if parse accepts with the single root main: string_serialize -> parse must succeed and agree with the first parse in the same sense; a generated text that defines main must not be accepted without a main root. mode 3 (arbitrary strings): lossy-UTF-8 random bytes, token soup from the lexer's vocabulary, nesting shapes up to depth 10000, 1-3 edits of a mode-2 text; oracle: parse returns Ok or Err without panic, hang or stack overflow; the ErrorSet displays in < 8 MiB, also with the source attached as simpcli does; an accepted single-root text is held to the mode-2 round trip. Failures on cases matching a finding's case predicate are routed to that finding (order F7 F8 F10 F9 F11 wide-word auto-name); everything else is a violation. Non-trivial: modes 1/2: >= 6 nodes and a witness, jet, word or shared/duplicated sub-expression; mode 3: >= 5 tokens (white-space pieces + punctuation). Distinct by (mode, family, text).",
+    design_ref: "§6 C17",
+    max_len: 1500,
+    quick_cases: 12_000,
+    thorough_cases: 300_000,
+    alloc_limit: 512 << 20,
+    hang_is_violation: true,
+    ..Spec::base("C17", "Human-readable encoding round-trips", case)
+};
 
-pub fn case(_cx: &mut Case) -> CaseResult {
+pub const SIG_HOLE: &str = "render-hole-name-with-space";
+pub const SIG_FAIL: &str = "render-fail-entropy-without-0x";
+pub const SIG_OPTION: &str = "render-option-type-as-question-mark";
+pub const SIG_LITCMR: &str = "literal-cmr-assertion-dropped-by-parser";
+pub const SIG_DUP: &str = "equal-subexpressions-under-two-names";
+pub const SIG_WIDE: &str = "render-word-type-wider-than-2^512";
+pub const SIG_NAME: &str = "auto-name-collides-with-user-name";
+pub const SIG_CTX_EOF: &str = "error-display-with-context-panics-at-end-of-input";
+pub const SIG_CTX_UTF8: &str = "error-display-with-context-panics-on-multibyte-first-line";
+
+thread_local! {
+    static CORE_JETS: Vec<JetRef> = all_jets(Family::Core);
+    static ELEMENTS_JETS: Vec<JetRef> = all_jets(Family::Elements);
+}
+
+fn jets_of(family: Family) -> Vec<JetRef> {
+    match family {
+        Family::Core => CORE_JETS.with(|j| j.clone()),
+        Family::Elements => ELEMENTS_JETS.with(|j| j.clone()),
+    }
+}
+
+/// Development aid: with C17_ASSUME_KNOWN=1 in the environment the finding signatures of this
+/// module are treated as if they were listed in known_findings.json (hits are labelled
+/// "dev-assumed known: .."), so that the class distribution behind them can be measured.
+/// Without the variable (the normal way to run) every hit goes through `cx.known_or_fail`.
+fn dev_assume_known() -> bool {
+    static ON: std::sync::OnceLock<bool> = std::sync::OnceLock::new();
+    *ON.get_or_init(|| std::env::var_os("C17_ASSUME_KNOWN").is_some())
+}
+
+fn excluded(cx: &mut Case, sig: &'static str, detail: impl FnOnce() -> String) -> CaseResult {
+    cx.label(match sig {
+        SIG_HOLE => "outcome: excluded by render-hole-name-with-space",
+        SIG_FAIL => "outcome: excluded by render-fail-entropy-without-0x",
+        SIG_OPTION => "outcome: excluded by render-option-type-as-question-mark",
+        SIG_LITCMR => "outcome: excluded by literal-cmr-assertion-dropped-by-parser",
+        SIG_DUP => "outcome: excluded by equal-subexpressions-under-two-names",
+        SIG_WIDE => "outcome: excluded by render-word-type-wider-than-2^512",
+        SIG_NAME => "outcome: excluded by auto-name-collides-with-user-name",
+        SIG_CTX_EOF => "outcome: excluded by error-display-with-context-panics-at-end-of-input",
+        _ => "outcome: excluded by error-display-with-context-panics-on-multibyte-first-line",
+    });
+    if dev_assume_known() && !cx.is_known(sig) {
+        cx.label("dev-assumed known (C17_ASSUME_KNOWN)");
+        if cx.verbose {
+            eprintln!("  dev-assumed known [{}]: {}", sig, detail());
+        }
+        return Ok(());
+    }
+    cx.known_or_fail(sig, detail)
+}
+
+/// Run library code; a panic becomes `Err(message)` (fuel exhaustion is passed on to the engine).
+fn guarded<T>(f: impl FnOnce() -> T) -> Result<T, String> {
+    match catch_unwind(AssertUnwindSafe(f)) {
+        Ok(v) => Ok(v),
+        Err(p) => {
+            if p.downcast_ref::<simplicity::verif_hooks::FuelExhausted>().is_some() {
+                resume_unwind(p);
+            }
+            let msg = if let Some(s) = p.downcast_ref::<&str>() {
+                s.to_string()
+            } else if let Some(s) = p.downcast_ref::<String>() {
+                s.clone()
+            } else {
+                "non-string panic payload".to_string()
+            };
+            Err(msg)
+        }
+    }
+}
+
+fn parse(family: Family, s: &str) -> Result<Forest, ErrorSet> {
+    match family {
+        Family::Core => Forest::parse::<Core>(s),
+        Family::Elements => Forest::parse::<Elements>(s),
+    }
+}
+
+fn clip(s: &str, n: usize) -> String {
+    if s.len() <= n {
+        return s.to_string();
+    }
+    let mut k = n;
+    while !s.is_char_boundary(k) {
+        k -= 1;
+    }
+    format!("{}…[{} bytes in all]", &s[..k], s.len())
+}
+
+// -------------------------------------------------------------------------------------------
+// Case features (the predicates of the findings are decided on these)
+// -------------------------------------------------------------------------------------------
+
+#[derive(Default, Debug, Clone)]
+pub struct Feat {
+    pub nodes: usize,
+    pub disconnect: bool,
+    pub fail: bool,
+    pub assertion: bool,
+    pub witness: bool,
+    pub jet: bool,
+    pub word: bool,
+    /// two distinct node objects with the same (defined) IHR
+    pub duplicates: bool,
+    /// some source/target type contains 1 + A (A != 1) outside a word type: printed `A?`
+    pub option_type: bool,
+    /// some source/target type contains 2^(2^n), n >= 10: printed `2^1024`, ...
+    pub wide_word: bool,
+}
+
+fn scan_type(t: &Arc<RTy>, memo: &mut HashMap<u64, (bool, bool)>) -> (bool, bool) {
+    if let Some(r) = memo.get(&t.hash) {
+        return *r;
+    }
+    let r = if let Some(n) = t.as_word() {
+        (false, n >= 10)
+    } else {
+        match &t.kind {
+            RTyKind::Unit => (false, false),
+            RTyKind::Sum(a, b) | RTyKind::Prod(a, b) => {
+                let here = matches!(t.kind, RTyKind::Sum(..)) && a.is_unit();
+                let (o1, w1) = scan_type(a, memo);
+                let (o2, w2) = scan_type(b, memo);
+                (here || o1 || o2, w1 || w2)
+            }
+        }
+    };
+    memo.insert(t.hash, r);
+    r
+}
+
+pub fn features(c: &CommitNode) -> Feat {
+    let mut f = Feat::default();
+    let mut ihrs: HashSet<[u8; 32]> = HashSet::new();
+    let mut seen_ty: HashSet<[u8; 32]> = HashSet::new();
+    let mut memo: HashMap<u64, (bool, bool)> = HashMap::new();
+    for d in c.post_order_iter::<InternalSharing>() {
+        f.nodes += 1;
+        match d.node.inner() {
+            Inner::Disconnect(..) => f.disconnect = true,
+            Inner::Fail(..) => f.fail = true,
+            Inner::AssertL(..) | Inner::AssertR(..) => f.assertion = true,
+            Inner::Witness(..) => f.witness = true,
+            Inner::Jet(..) => f.jet = true,
+            Inner::Word(..) => f.word = true,
+            _ => {}
+        }
+        if let Some(ihr) = d.node.ihr() {
+            if !ihrs.insert(ihr.to_byte_array()) {
+                f.duplicates = true;
+            }
+        }
+        for t in [&d.node.arrow().source, &d.node.arrow().target] {
+            if seen_ty.insert(t.tmr().to_byte_array()) {
+                let (o, w) = scan_type(&from_final(t), &mut memo);
+                f.option_type |= o;
+                f.wide_word |= w;
+            }
+        }
+    }
+    f
+}
+
+fn label_features(cx: &mut Case, f: &Feat) {
+    cx.label_if(f.disconnect, "has disconnect");
+    cx.label_if(f.fail, "has fail");
+    cx.label_if(f.assertion, "has assertion");
+    cx.label_if(f.option_type, "has option type (1 + A)");
+    cx.label_if(f.wide_word, "has word type wider than 2^512");
+    cx.label_if(f.duplicates, "has duplicates (equal IHR, distinct nodes)");
+    cx.label_if(f.witness, "has witness");
+    cx.label_if(f.jet, "has jet");
+    cx.label_if(f.word, "has word");
+}
+
+/// Two distinct nodes of a parsed program carrying the same name.
+fn same_name_twice(forest: &Forest) -> bool {
+    let mut names: HashSet<Arc<str>> = HashSet::new();
+    for root in forest.roots().values() {
+        for d in root.as_ref().post_order_iter::<InternalSharing>() {
+            if !names.insert(d.node.name().clone()) {
+                return true;
+            }
+        }
+    }
+    false
+}
+
+// -------------------------------------------------------------------------------------------
+// Oracles
+// -------------------------------------------------------------------------------------------
+
+/// `rendered` is what `string_serialize` printed for `orig`.  It must parse to the single root
+/// main that equals `orig`.  `preds`: (signature, does the case match its predicate), in order.
+fn check_reparse(cx: &mut Case, family: Family, what: &str, orig: &Arc<CommitNode>, rendered: &str, preds: &[(&'static str, bool)]) -> CaseResult {
+    let failure: Option<String> = match guarded(|| parse(family, rendered)) {
+        Err(p) => Some(format!("Forest::parse panics on the rendered text: {}", p)),
+        Ok(Err(es)) => Some(format!("the rendered text does not parse: {}", clip(&es.to_string().replace('\n', " | "), 400))),
+        Ok(Ok(forest)) => {
+            let roots = forest.roots();
+            match roots.get("main") {
+                None => Some(format!("the rendered text parses without error but the result has no root `main` ({} roots)", roots.len())),
+                Some(_) if roots.len() != 1 => Some(format!("the rendered text parses to {} roots instead of the single root main", roots.len())),
+                Some(main) => {
+                    let back = main.to_commit_node();
+                    if back.cmr() != orig.cmr() {
+                        Some(format!("root cmr changed: {} -> {}", orig.cmr(), back.cmr()))
+                    } else if main.cmr() != orig.cmr() || main.arrow() != orig.arrow() {
+                        Some("NamedCommitNode::cmr()/arrow() of the reparsed main differ from the original".to_string())
+                    } else if let Some(d) = diff_walks(&walk_commit(orig), &walk_commit(&back)) {
+                        Some(format!("reparsed program differs: {}", d))
+                    } else {
+                        let (b0, b1) = (orig.to_vec_without_witness(), back.to_vec_without_witness());
+                        if b0 != b1 {
+                            Some(format!("bit encoding changed: {} -> {}", hex(&b0), hex(&b1)))
+                        } else {
+                            None
+                        }
+                    }
+                }
+            }
+        }
+    };
+    match failure {
+        None => {
+            cx.label("outcome: round-trip ok");
+            Ok(())
+        }
+        Some(msg) => {
+            let detail = || format!("{}: {}\n  rendered text:\n{}", what, msg, clip(rendered, 3000));
+            for (sig, applies) in preds {
+                if *applies {
+                    return excluded(cx, sig, detail);
+                }
+            }
+            Err(detail())
+        }
+    }
+}
+
+/// The error list of a rejected input displays within bounds, bare and with the source attached.
+fn check_error_set(cx: &mut Case, input: &str, es: &ErrorSet) -> CaseResult {
+    if es.is_empty() {
+        return Err(format!("Forest::parse returned Err with an empty error set on {:?}", clip(input, 300)));
+    }
+    bounded_display(es).map_err(|e| format!("{} (input {:?})", e, clip(input, 300)))?;
+    // simpcli: errs.add_context(Arc::from(text)); eprintln!("{}", errs)
+    let first_pos = es.first_error().and_then(|(p, _)| p);
+    let mut with_ctx = es.clone();
+    let r = guarded(move || {
+        with_ctx.add_context(Arc::from(input));
+        bounded_display(&with_ctx)
+    });
+    match r {
+        Ok(Ok(_)) => Ok(()),
+        Ok(Err(e)) => Err(format!("{} (with source attached; input {:?})", e, clip(input, 300))),
+        Err(p) => {
+            let detail = || format!("displaying the error set with the source attached (as simpcli does) panics: {}\n  input {:?}", p, clip(input, 300));
+            let at_eof = first_pos == Some(Position::default());
+            let on_line_1 = matches!(first_pos, Some(p) if p >= Position::new(1, 0) && p < Position::new(2, 0));
+            let multibyte_start = input.chars().next().map(|c| c.len_utf8() > 1).unwrap_or(false);
+            if at_eof {
+                excluded(cx, SIG_CTX_EOF, detail)
+            } else if on_line_1 && multibyte_start {
+                excluded(cx, SIG_CTX_UTF8, detail)
+            } else {
+                Err(detail())
+            }
+        }
+    }
+}
+
+/// An accepted source text with the single root main: render, parse again, compare.
+fn check_accepted_text(cx: &mut Case, family: Family, what: &str, forest: &Forest) -> Result<Feat, String> {
+    let main = forest.roots().get("main").expect("caller checked");
+    let first = main.to_commit_node();
+    let feat = features(&first);
+    label_features(cx, &feat);
+    let collide = same_name_twice(forest);
+    cx.label_if(collide, "has two nodes with one name");
+    let rendered = guarded(|| forest.string_serialize()).map_err(|p| format!("{}: string_serialize panics: {}", what, p))?;
+    let preds = [(SIG_FAIL, feat.fail), (SIG_LITCMR, feat.assertion), (SIG_OPTION, feat.option_type), (SIG_DUP, feat.duplicates), (SIG_WIDE, feat.wide_word), (SIG_NAME, collide)];
+    check_reparse(cx, family, what, &first, &rendered, &preds)?;
+    Ok(feat)
+}
+
+// -------------------------------------------------------------------------------------------
+// Generation
+// -------------------------------------------------------------------------------------------
+
+/// Like `gen_unit_program(cx, true, false)` but with some node kinds switched off, so that a
+/// good share of the programs matches none of the findings' predicates.
+fn gen_restricted_program(cx: &mut Case) -> Generated {
+    let family = if cx.src.bool() { Family::Core } else { Family::Elements };
+    let mut cfg = GenCfg::basic(family);
+    cfg.jet_pool = Some(jets_of(family));
+    cfg.max_nodes = [6usize, 20, 60, 150][cx.src.below(4)];
+    cfg.share_p = [0u32, 20, 60, 110, 154][cx.src.below(5)];
+    cfg.max_mid_width = [8usize, 40, 130][cx.src.below(3)];
+    cfg.disconnect_has_branch = false;
+    cfg.unique_witness_subexprs = true;
+    let off = cx.src.u8();
+    cfg.fail = off & 1 != 0;
+    cfg.assert = off & 2 != 0;
+    cfg.disconnect = off & 4 != 0;
+    cfg.witness = off & 8 != 0;
+    cfg.jets = off & 16 == 0;
+    let wmax = [4usize, 30, 120][cx.src.below(3)];
+    let (a, b) = gen_arrow(&mut cx.src, wmax);
+    let mut src = cx.src.clone();
+    let mut g = ProgGen::new(&mut src, cfg);
+    let e = g.expr(&a, &b, 0);
+    let root = g.wrap_program(e, &a, &b, None);
+    let prog = g.finish(root);
+    cx.src = src;
+    cx.label(if family == Family::Core { "family: Core" } else { "family: Elements" });
+    Generated { prog, family }
+}
+
+fn gen_program(cx: &mut Case) -> Result<(Generated, Typed), String> {
+    let g = if cx.src.bool() {
+        cx.label("generator: restricted kinds");
+        gen_restricted_program(cx)
+    } else {
+        cx.label("generator: all kinds");
+        gen_unit_program(cx, true, false)
+    };
+    let typed = type_check(&g.prog, true).map_err(|e| harness_error(format!("generated IR rejected: {:?}; {}", e, g.prog.render())))?;
+    Ok((g, typed))
+}
+
+fn shared_in_ir(prog: &Prog) -> bool {
+    prog.in_degrees().iter().any(|d| *d >= 2)
+}
+
+fn label_text_info(cx: &mut Case, i: &TextInfo) {
+    cx.label_if(i.inline_nodes > 0, "text: inline sub-expressions");
+    cx.label_if(i.lines > 1, "text: several named lines");
+    cx.label_if(i.duplicated_inline, "text: shared node written out twice");
+    cx.label_if(i.literal_cmr, "text: literal #cmr");
+    cx.label_if(i.expr_cmr, "text: #{expr} cmr");
+    cx.label_if(i.ascriptions > 0, "text: type ascriptions");
+    cx.label_if(i.type_lines > 0, "text: separate type line");
+    cx.label_if(i.aliases > 0, "text: alias line");
+    cx.label_if(i.comments > 0, "text: comments");
+    cx.label_if(i.parens > 0, "text: parentheses");
+    cx.label_if(i.auto_shaped_names, "text: names shaped like invented names");
+    cx.label_if(i.shuffled, "text: shuffled lines");
+}
+
+// -------------------------------------------------------------------------------------------
+// The three modes
+// -------------------------------------------------------------------------------------------
+
+fn mode_program(cx: &mut Case) -> CaseResult {
+    cx.label("mode 1: program -> text -> program");
+    let (g, typed) = gen_program(cx)?;
+    let commit = typed.commit.clone();
+    let feat = features(&commit);
+    label_features(cx, &feat);
+    cx.label_if(shared_in_ir(&g.prog), "has shared sub-expression (in-degree >= 2)");
+    cx.nontrivial = feat.nodes >= 6 && (feat.witness || feat.jet || feat.word || feat.duplicates || shared_in_ir(&g.prog));
+    let rendered = guarded(|| Forest::from_program(commit.clone()).string_serialize()).map_err(|p| format!("from_program/string_serialize panics: {}\n  program: {}", p, g.prog.render()))?;
+    cx.fp.write(b"m1");
+    cx.fp.write_u64(g.family as u64);
+    cx.fp.write(rendered.as_bytes());
+    cx.set_sample(|| json!({"mode": 1, "family": format!("{:?}", g.family), "program": g.prog.render(), "nodes": feat.nodes, "rendered": clip(&rendered, 1200)}));
+    let clean = !(feat.disconnect || feat.fail || feat.assertion || feat.option_type || feat.wide_word);
+    cx.label_if(clean, "matches no finding predicate");
+    // F11 is not listed: from_program merges equal sub-expressions, duplicates must round-trip
+    let preds = [(SIG_HOLE, feat.disconnect), (SIG_FAIL, feat.fail), (SIG_LITCMR, feat.assertion), (SIG_OPTION, feat.option_type), (SIG_WIDE, feat.wide_word)];
+    check_reparse(cx, g.family, "mode 1 (from_program -> string_serialize -> parse)", &commit, &rendered, &preds).map_err(|e| format!("{}\n  program: {}", e, g.prog.render()))
+}
+
+/// First parse of a generated text.  Ok(Some(forest)) if accepted with the single root main.
+fn first_parse(cx: &mut Case, family: Family, text: &str, defines_main: bool, literal_cmr: bool) -> Result<Option<Forest>, String> {
+    match guarded(|| parse(family, text)) {
+        Err(p) => Err(format!("Forest::parse panics: {}\n  input {:?}", p, clip(text, 2000))),
+        Ok(Err(es)) => {
+            cx.label("outcome: text rejected");
+            if cx.verbose {
+                eprintln!("  rejected: {}", clip(&es.to_string(), 1500));
+            }
+            check_error_set(cx, text, &es)?;
+            Ok(None)
+        }
+        Ok(Ok(forest)) => {
+            let roots = forest.roots();
+            if roots.len() == 1 && roots.contains_key("main") {
+                cx.label("text accepted with the single root main");
+                return Ok(Some(forest));
+            }
+            if defines_main && !roots.contains_key("main") {
+                // a well-formed text defining main was accepted, yet main is not in the result
+                let detail = || format!("Forest::parse returns Ok for a text that defines `main`, but the result has no root main ({} roots)\n  input:\n{}", roots.len(), clip(text, 3000));
+                if literal_cmr {
+                    excluded(cx, SIG_LITCMR, detail)?;
+                    return Ok(None);
+                }
+                return Err(detail());
+            }
+            cx.label("outcome: text accepted, not a single root main");
+            Ok(None)
+        }
+    }
+}
+
+fn mode_text(cx: &mut Case) -> CaseResult {
+    cx.label("mode 2: text -> program -> text -> program");
+    let (g, typed) = gen_program(cx)?;
+    let mut s = cx.src.clone();
+    let (text, info) = text::gen_text(&mut s, &g.prog, &typed.arrows);
+    cx.src = s;
+    label_text_info(cx, &info);
+    cx.fp.write(b"m2");
+    cx.fp.write_u64(g.family as u64);
+    cx.fp.write(text.as_bytes());
+    let n_ir = g.prog.reachable().len();
+    cx.nontrivial = n_ir >= 6 && (g.prog.has("witness") || g.prog.has("jet") || g.prog.has("word") || shared_in_ir(&g.prog));
+    cx.set_sample(|| json!({"mode": 2, "family": format!("{:?}", g.family), "text": clip(&text, 1500), "style": format!("{:?}", info)}));
+    if cx.verbose {
+        eprintln!("  generated text:\n{}", text);
+    }
+    let forest = match first_parse(cx, g.family, &text, true, info.literal_cmr)? {
+        Some(f) => f,
+        None => return Ok(()),
+    };
+    let feat = check_accepted_text(cx, g.family, "mode 2 (parse -> string_serialize -> parse)", &forest).map_err(|e| format!("{}\n  source text:\n{}", e, clip(&text, 3000)))?;
+    let clean = !(feat.fail || feat.assertion || feat.option_type || feat.wide_word || feat.duplicates) && !same_name_twice(&forest);
+    cx.label_if(clean, "matches no finding predicate");
     Ok(())
+}
+
+fn mode_arbitrary(cx: &mut Case) -> CaseResult {
+    cx.label("mode 3: arbitrary string");
+    let family = if cx.src.bool() { Family::Core } else { Family::Elements };
+    let jets = jets_of(family);
+    let (text, defines_main, literal_cmr): (String, bool, bool) = match cx.src.weighted(&[4, 8, 3, 8]) {
+        0 => {
+            cx.label("string: lossy UTF-8 of random bytes");
+            (String::from_utf8_lossy(cx.src.rest()).into_owned(), false, false)
+        }
+        1 => {
+            cx.label("string: token soup");
+            let seeded = cx.src.chance(100);
+            let mut s = cx.src.clone();
+            let body = text::soup(&mut s, family, &jets, 60);
+            cx.src = s;
+            (if seeded { format!("main := {}", body) } else { body }, false, false)
+        }
+        2 => {
+            let mut s = cx.src.clone();
+            let d = text::nesting_depth(&mut s);
+            let (shape, t) = text::deep_nesting(&mut s, d);
+            cx.src = s;
+            cx.label(shape);
+            cx.label_if(d >= 1000, "nest: depth >= 1000");
+            cx.label_if(d >= 8000, "nest: depth >= 8000");
+            (t, false, false)
+        }
+        _ => {
+            cx.label("string: edited well-formed text");
+            let g = gen_unit_program(cx, true, false);
+            let typed = type_check(&g.prog, true).map_err(|e| harness_error(format!("generated IR rejected: {:?}", e)))?;
+            let mut s = cx.src.clone();
+            let (t, _) = text::gen_text(&mut s, &g.prog, &typed.arrows);
+            let m = text::mutate_text(&mut s, &t, g.family, &jets_of(g.family));
+            cx.src = s;
+            // parse with the family the text was written for
+            return arbitrary_with(cx, g.family, m);
+        }
+    };
+    let _ = (defines_main, literal_cmr);
+    arbitrary_with(cx, family, text)
+}
+
+fn arbitrary_with(cx: &mut Case, family: Family, text: String) -> CaseResult {
+    cx.fp.write(b"m3");
+    cx.fp.write_u64(family as u64);
+    cx.fp.write(text.as_bytes());
+    cx.nontrivial = text::approx_tokens(&text) >= 5;
+    cx.set_sample(|| json!({"mode": 3, "family": format!("{:?}", family), "text": clip(&text, 600)}));
+    if cx.verbose {
+        eprintln!("  input ({} bytes): {:?}", text.len(), clip(&text, 3000));
+    }
+    let forest = match first_parse(cx, family, &text, false, false)? {
+        Some(f) => f,
+        None => return Ok(()),
+    };
+    check_accepted_text(cx, family, "mode 3 (accepted string: parse -> string_serialize -> parse)", &forest).map_err(|e| format!("{}\n  input {:?}", e, clip(&text, 3000)))?;
+    Ok(())
+}
+
+pub fn case(cx: &mut Case) -> CaseResult {
+    match cx.src.weighted(&[5, 5, 4]) {
+        0 => mode_program(cx),
+        1 => mode_text(cx),
+        _ => mode_arbitrary(cx),
+    }
 }
